@@ -191,7 +191,16 @@ pub trait ByteReader {
         Self: Sized,
         D: Deserializable,
     {
-        let mut result = Vec::with_capacity(num_elements);
+        // `num_elements` frequently comes straight from the input, so it cannot be trusted for
+        // pre-allocation: a corrupted or malicious length must result in a deserialization error
+        // rather than in a capacity overflow panic or an allocation failure. We pre-allocate at
+        // most MAX_PREALLOCATION_BYTES and let the vector grow as elements are actually read.
+        const MAX_PREALLOCATION_BYTES: usize = 1 << 20;
+        let capacity = match core::mem::size_of::<D>() {
+            0 => num_elements,
+            size => core::cmp::min(num_elements, MAX_PREALLOCATION_BYTES / size),
+        };
+        let mut result = Vec::with_capacity(capacity);
         for _ in 0..num_elements {
             let element = D::read_from(self)?;
             result.push(element)
